@@ -172,7 +172,11 @@ def oracle_case(sl, mode, res, ns):
         # when the real product is within 2^-40 (relative) of a half-step boundary
         frac = x + F(1, 2) - math.floor(x + F(1, 2))
         near = min(frac, 1 - frac) <= (abs(x) + 1) * F(1, 2**40)
-        if near and abs(step - want) == 1:
+        # ... but not on an exact half-step tie that the code sees exactly (float product exact, x = k + 1/2: then
+        # x + 0.5 is exact too and the statement's "ties round up" applies with no tolerance).  One ulp beside the
+        # boundary the code's own addition x + 0.5 rounds, which the tolerance above covers (C01 float theorems).
+        exact_tie = (2 * x).denominator == 1 and x.denominator == 2 and F(t * float(sps)) == x and abs(x) < 2**50
+        if near and abs(step - want) == 1 and not exact_tie:
             return None
         if x < 0 and step == 0 and x > F(-3, 2):   # int() truncates toward zero: (-1.5, -0.5] -> 0 (allowed)
             return None
